@@ -33,10 +33,43 @@ from contracts import C19 as B
 El, S = B.El, B.S
 PPTX = "sharepoint2text/parsing/extractors/ms_modern/pptx_extractor.py"
 DOCX = "sharepoint2text/parsing/extractors/ms_modern/docx_extractor.py"
-T_PPTX = f"{PPTX}::_extract_formulas_from_element"
-T_DOCX = f"{DOCX}::_extract_formulas_from_context"
+
+
+def _calls(fn, name):
+    return [n for n in ast.walk(fn) if isinstance(n, ast.Call) and (
+        (isinstance(n.func, ast.Name) and n.func.id == name) or (isinstance(n.func, ast.Attribute) and n.func.attr == name))]
+
+
+def _discover():
+    """the call-site functions, found by what they do when they no longer carry their historical names:
+    pptx: the function that calls omml_to_latex; docx: the recursive caller (text assembly) and the caller that
+    builds DocxFormula records"""
+    names = {"pptx": "_extract_formulas_from_element", "docx": "_extract_formulas_from_context", "pte": "_process_text_element"}
+    try:
+        pm, dm = loader.module(PPTX), loader.module(DOCX)
+        top = lambda m: {q: f for q, f in m.functions.items() if "." not in q}
+        pc = [q for q, f in top(pm).items() if _calls(f, "omml_to_latex")]
+        if names["pptx"] not in pc and len(pc) == 1:
+            names["pptx"] = pc[0]
+        dc = {q: f for q, f in top(dm).items() if _calls(f, "omml_to_latex")}
+        rec = [q for q, f in dc.items() if _calls(f, q)]
+        rec_ = [q for q in rec]
+        if names["pte"] not in dc and len(rec_) == 1:
+            names["pte"] = rec_[0]
+        mk = [q for q, f in dc.items() if _calls(f, "DocxFormula") and q not in rec]
+        if names["docx"] not in dc and len(mk) == 1:
+            names["docx"] = mk[0]
+    except Exception:  # noqa
+        pass
+    return names
+
+
+_N = _discover()
+T_PPTX = f"{PPTX}::{_N['pptx']}"
+T_DOCX = f"{DOCX}::{_N['docx']}"
 SITES = (T_PPTX, T_DOCX)
-T_PTE = f"{DOCX}::_process_text_element"      # docx text assembly: $..$ / $$..$$ inserted into the paragraph text
+T_PTE = f"{DOCX}::{_N['pte']}"      # docx text assembly: $..$ / $$..$$ inserted into the paragraph text
+OIDS = {T_PPTX: "_extract_formulas_from_element", T_DOCX: "_extract_formulas_from_context", T_PTE: "_process_text_element"}
 ArrB, ArrI = z3.ArraySort(El, z3.BoolSort()), z3.ArraySort(El, z3.IntSort())
 
 
@@ -209,13 +242,16 @@ class SiteExecutor(B.C19Executor):
 
     def e_List(self, n, st):
         if self.site_mode() and not n.elts:
-            d = {"APP": z3.K(El, z3.IntVal(0)), "FLG": z3.K(El, z3.BoolVal(False)), "foreign": z3.BoolVal(False)}
+            d = {"APP": z3.K(El, z3.IntVal(0)), "FLG": z3.K(El, z3.BoolVal(False)), "foreign": z3.BoolVal(False),
+                 "n": z3.IntVal(0)}
             return [(st, VRef(st.alloc(HeapObj("flist", d), self.refs)))]
         return super().e_List(n, st)
 
     def truth(self, st, v):
-        if isinstance(v, VRef) and st.obj(v.ref).kind in ("flist", "idset"):
-            raise Unsupported("truth value of an abstract formula list / id set")
+        if isinstance(v, VRef) and st.obj(v.ref).kind == "flist":
+            return VBool(st.obj(v.ref).data["n"] > 0)
+        if isinstance(v, VRef) and st.obj(v.ref).kind == "idset":
+            raise Unsupported("truth value of an abstract id set")
         return super().truth(st, v)
 
     def call_method(self, st, obj, name, args, kwargs, node):
@@ -251,6 +287,7 @@ class SiteExecutor(B.C19Executor):
         else:
             d["APP"] = z3.Store(d["APP"], src, z3.Select(d["APP"], src) + 1)
             d["FLG"] = z3.Store(d["FLG"], src, item.items[1].t)
+        d["n"] = d["n"] + 1
         st.wobj(ref).data = d
 
     def contains(self, st, container, item, node):
@@ -276,6 +313,9 @@ class SiteExecutor(B.C19Executor):
         return res
 
     def b_len(self, st, args, kwargs, node):
+        if len(args) == 1 and isinstance(args[0], VRef) and st.obj(args[0].ref).kind == "flist":
+            from pyvc.values import VInt
+            return [(st, VInt(st.obj(args[0].ref).data["n"]))]
         if args and isinstance(args[0], VRef) and st.ghost.get("append_only") == args[0].ref:
             raise Unsupported(f"{self.loc(node)} len() of the append-only output parameter")
         return super().b_len(st, args, kwargs, node)
@@ -300,8 +340,10 @@ class SiteExecutor(B.C19Executor):
             st.heap[ref] = HeapObj("idset", {"arr": z3.Const(B.fresh_name("INP"), ArrB)}, None, o.fresh)
             return True
         if o.kind == "flist":
+            n = z3.Int(B.fresh_name("nformulas"))
+            st.assume(n >= 0)
             st.heap[ref] = HeapObj("flist", {"APP": z3.Const(B.fresh_name("APP"), ArrI), "FLG": z3.Const(B.fresh_name("FLG"), ArrB),
-                                             "foreign": z3.Bool(B.fresh_name("foreign"))}, None, o.fresh)
+                                             "foreign": z3.Bool(B.fresh_name("foreign")), "n": n}, None, o.fresh)
             return True
         if o.kind == "cnt":
             return True
@@ -349,10 +391,10 @@ def state_arrays(st):
 
 
 def root_of(c0):
-    if "elem" in c0.args:
-        return c0.args["elem"]
-    ctx = c0.args["ctx"]
-    return c0.entry.obj(ctx.ref).data["document_body"]
+    a = B.A0(c0)
+    if isinstance(a, VRef):          # the docx context object: the body is its attribute
+        return c0.entry.obj(a.ref).data["document_body"]
+    return a
 
 
 def common(r, INP, CNT, APP, FLG, foreign, conv):
@@ -468,7 +510,7 @@ def committed_tag(c, e):
 
 def pte_frame(ex, st, c):
     """a (recursive) call may append any strings to `parts`"""
-    v = c.args["parts"]
+    v = list(c.args.values())[1]
     if isinstance(v, VRef):
         d = {k: z3.Int(B.fresh_name(f"parts.{k}")) for k in ("n",) + B.HN}
         for k in d:
@@ -480,12 +522,13 @@ def pte_formula(which):
     def clause(c):
         if not B.verifying(c):
             return z3.BoolVal(True)
-        e, inc = c.args["elem"].t, c.args["include_formulas"].t
+        av = list(c.args.values())
+        e, inc = av[0].t, av[2].t
         tag = committed_tag(c, e)
         want_tag = B.Q("oMath") if which == "inline" else B.Q("oMathPara")
         if tag is not None and tag != want_tag:
             return z3.BoolVal(True)              # the path condition commits to another tag
-        o = c.st.obj(c.args["parts"].ref)
+        o = c.st.obj(av[1].ref)
         calls = c.st.ghost.get("oml_calls", ())
         if o.kind != "list" or o.data is None or not all(isinstance(x, VStr) for x in o.data):
             return z3.Implies(B.TAG(e) == B.sval(want_tag), z3.BoolVal(False))
@@ -510,31 +553,140 @@ def pte_formula(which):
 
 def pte_hyps(c):
     fs = []
-    v = c.args["elem"]
+    v = B.A0(c)
     if isinstance(v, VExt):
         fs += B.elem_hyps(v)
     return z3.And(fs) if fs else z3.BoolVal(True)
 
 
+def inv_by_sequence(lc):
+    """the invariant follows from *what* the loop iterates (root.iter(m:oMathPara) / root.iter(m:oMath)), not from its position"""
+    tag = lc.seq.tag.get("iter") if hasattr(lc.seq, "tag") and isinstance(lc.seq.tag, dict) else None
+    if tag is None:
+        return z3.BoolVal(True)
+    if tag[1] == B.Q("oMathPara"):
+        return inv1(lc)
+    if tag[1] == B.Q("oMath"):
+        return inv2(lc)
+    return z3.BoolVal(True)
+
+
 def site_contracts(reg):
     out = []
     from pyvc.verify import p_bool
+    pn = lambda rel, tgt, k, d: B.pname(tgt.split("::")[1], k, d, rel)
     out.append(FnContract(
-        target=T_PTE, params=[("elem", p_ext("Element")), ("parts", p_outlist()), ("include_formulas", p_bool())],
-        hyps=pte_hyps, total=True, raises=[], modifies=("parts",), frame=pte_frame,
-        decreases=lambda c: B.SIZE(c.args["elem"].t),
+        target=T_PTE, params=[(pn(DOCX, T_PTE, 0, "elem"), p_ext("Element")), (pn(DOCX, T_PTE, 1, "parts"), p_outlist()),
+                              (pn(DOCX, T_PTE, 2, "include_formulas"), p_bool())],
+        hyps=pte_hyps, total=True, raises=[], modifies=(pn(DOCX, T_PTE, 1, "parts"),), frame=pte_frame,
+        decreases=lambda c: B.SIZE(B.A0(c).t),
         ensures=[("inline-formula-as-$latex$", pte_formula("inline")),
                  ("display-formula-as-$$latex$$", pte_formula("display"))],
         note="m:oMath -> '$'+latex+'$', m:oMathPara -> '$$'+latex of its first m:oMath+'$$', each converted once, "
              "only when formulas are included and the rendering is not blank; recursion by contract"))
     ens = [(l, post(l)) for l in LABELS]
     out.append(FnContract(
-        target=T_PPTX, params=[("elem", p_ext("Element"))], hyps=site_hyps, total=True, raises=[],
-        ensures=ens, loops={0: LoopSpec(inv=inv1), 1: LoopSpec(inv=inv2)},
+        target=T_PPTX, params=[(pn(PPTX, T_PPTX, 0, "elem"), p_ext("Element"))], hyps=site_hyps, total=True, raises=[],
+        ensures=ens, loops={"*": LoopSpec(inv=inv_by_sequence)},
         note="every oMath of the shape converted and listed exactly once, display iff first oMath of an oMathPara"))
     out.append(FnContract(
-        target=T_DOCX, params=[("ctx", p_obj("_DocxContext", {"document_body": p_opt(p_ext("Element"))}))],
+        target=T_DOCX, params=[(pn(DOCX, T_DOCX, 0, "ctx"), p_obj("_DocxContext", {"document_body": p_opt(p_ext("Element"))}))],
         hyps=site_hyps, total=True, raises=[],
-        ensures=ens, loops={0: LoopSpec(inv=inv1), 1: LoopSpec(inv=inv2)},
+        ensures=ens, loops={"*": LoopSpec(inv=inv_by_sequence)},
         note="same for the document body (ASSUMED: ctx.document_body is an attribute read, Element or None)"))
+    for c in out:
+        c.oid_name = OIDS[c.target]
     return out
+
+
+# ---- the pptx consumer of the formula list, checked on the real loop body -------------------------
+def consumer_obligation(repo):
+    """-> (ok | None, why).  The body of the loop `for <a>, <b> in <formula list>(...)` of the pptx slide builder is
+    executed symbolically for one arbitrary pair (latex, is_display): exactly one PptxFormula(latex, is_display) is
+    appended to a list and one entry whose text is "$$"+latex+"$$" for a display equation, "$"+latex+"$" otherwise.
+    None = the loop was not found in that shape / left the subset (-> `unknown`, the native end-to-end run decides)."""
+    import builtins
+    from pyvc import solve, verify
+    from pyvc.contracts import Registry
+    from pyvc.exctypes import Universe
+    from pyvc.verify import Maker, p_bool, p_unk
+    try:
+        pm = loader.module(PPTX, repo)
+    except FileNotFoundError:
+        return None, "pptx_extractor.py missing"
+    callee = T_PPTX.split("::")[1]
+    loops = [n for f in pm.functions.values() for n in ast.walk(f) if isinstance(n, ast.For) and isinstance(n.iter, ast.Call)
+             and _calls(ast.Expression(n.iter), callee) and n.iter in _calls(ast.Expression(n.iter), callee)]
+    loops = list({id(n): n for n in loops}.values())
+    if len(loops) != 1:
+        return None, f"{len(loops)} loops directly over {callee}(...)"
+    lp = loops[0]
+    if not (isinstance(lp.target, ast.Tuple) and len(lp.target.elts) == 2 and all(isinstance(x, ast.Name) for x in lp.target.elts)) \
+            or lp.orelse:
+        return None, "loop target is not a pair of names"
+    a, b = (x.id for x in lp.target.elts)
+    stored = {n.id for s_ in lp.body for n in ast.walk(s_) if isinstance(n, ast.Name) and isinstance(n.ctx, ast.Store)}
+    known = set(pm.assigns) | set(pm.functions) | set(pm.imports) | set(pm.classes) | set(dir(builtins))
+    free = sorted({n.id for s_ in lp.body for n in ast.walk(s_) if isinstance(n, ast.Name) and isinstance(n.ctx, ast.Load)}
+                  - stored - {a, b} - known)
+    lists = sorted({n.func.value.id for s_ in lp.body for n in ast.walk(s_) if isinstance(n, ast.Call)
+                    and isinstance(n.func, ast.Attribute) and n.func.attr == "append" and isinstance(n.func.value, ast.Name)} & set(free))
+    fn = ast.FunctionDef(name="_c19_consumer_body", args=ast.arguments(
+        posonlyargs=[], args=[ast.arg(arg=x) for x in [a, b] + free], kwonlyargs=[], kw_defaults=[], defaults=[]),
+        body=list(lp.body), decorator_list=[], returns=None, lineno=lp.lineno, col_offset=0)
+    ast.fix_missing_locations(fn)
+
+    def p_list():
+        return Maker(lambda ex, st, name: VRef(st.alloc(HeapObj("list", [], fresh=False), ex.refs)), desc="list")
+
+    def new_formula(ex, st, args, kwargs, node):
+        fields = dataclass_fields(repo, "PptxFormula")
+        vals = dict(zip([f for f, _ in fields], args))
+        vals.update(kwargs)
+        return [(st, VTuple([VStr("<PptxFormula>")] + [vals.get(f, d) for f, d in fields]))]
+    reg = Registry()
+    B.install(reg)
+    reg.ext_models[("new", "PptxFormula")] = new_formula
+    params = [(a, Maker(lambda ex, st, name: VStr(z3.String(name)), desc="str")), (b, p_bool())] + \
+             [(x, p_list() if x in lists else p_unk()) for x in free]
+
+    def finals(c):
+        return [c.st.obj(c.args[x].ref).data for x in lists]
+
+    def one_record(c):
+        la, fl = c.args[a], c.args[b]
+        for d in finals(c):
+            if d is not None and len(d) == 1 and isinstance(d[0], VTuple) and len(d[0].items) == 3 \
+                    and isinstance(d[0].items[0], VStr) and d[0].items[0].const() == "<PptxFormula>" \
+                    and isinstance(d[0].items[1], VStr) and isinstance(d[0].items[2], VBool):
+                return z3.And(d[0].items[1].t == la.t, d[0].items[2].t == fl.t)
+        return z3.BoolVal(False)
+
+    def one_text(c):
+        la, fl = c.args[a], c.args[b]
+        want = z3.If(fl.t, B.cat("$$", la.t, "$$"), B.cat("$", la.t, "$"))
+        for d in finals(c):
+            if d is not None and len(d) == 1 and isinstance(d[0], VTuple) and not (
+                    d[0].items and isinstance(d[0].items[0], VStr) and d[0].items[0].const() == "<PptxFormula>"):
+                strs = [x for x in d[0].items if isinstance(x, VStr) and x.const() is None]
+                if len(strs) == 1:
+                    return strs[0].t == want
+        return z3.BoolVal(False)
+    c = FnContract(target=f"{PPTX}::_c19_consumer_body", params=params, total=True, raises=[], modifies=tuple(lists),
+                   ensures=[("record", one_record), ("text", one_text)])
+    try:
+        ex = B.C19Executor(pm, reg, Universe(repo))
+        ex.contract, ex.oid_prefix = c, "C19/pptx_extractor.py::consumer"
+        obls, _cov = verify.generate(ex, c, pm, fn)
+    except Exception as e:  # noqa  (Unsupported, PathLimit, model errors: the shape is not one the executor handles)
+        return None, f"loop body not executable symbolically: {type(e).__name__}: {e}"[:300]
+    bad = []
+    for ob in obls.values():
+        for vc in ob.vcs:
+            r = solve.check_vc(vc.pc, vc.goal, 5000, want_model=False, use_cvc5=False)
+            if r.status != "proved":
+                bad.append(f"{ob.oid.split('/')[-1]}: {r.status}")
+                break
+    if bad:
+        return None, "; ".join(bad)[:300]
+    return True, f"loop body at line {lp.lineno}: {len(obls)} obligations on the real statements"
